@@ -1,0 +1,109 @@
+//go:build verif
+
+package tsdb
+
+// Thin exported wrappers around the delete guard (guard.go) and the epoch tracker
+// (epoch_tracker.go) for the verification harness. Add-only; no behaviour of its own: every
+// call below is one call of the unexported function plus bookkeeping that names each pending
+// delete by the generation WaitDelete assigned to it.
+
+import (
+	"sort"
+
+	"github.com/influxdata/influxdb/models"
+	"github.com/influxdata/influxql"
+)
+
+// VerifGuardMatches builds the guard a delete installs and asks it about a batch of points.
+func VerifGuardMatches(min, max int64, names []string, expr influxql.Expr, pts []models.Point) bool {
+	return newGuard(min, max, names, expr).Matches(pts)
+}
+
+// VerifNilGuardMatches asks the nil guard (guard.Matches has a nil receiver branch).
+func VerifNilGuardMatches(pts []models.Point) bool {
+	var g *guard
+	return g.Matches(pts)
+}
+
+// VerifEpochTracker drives one real epochTracker from a single goroutine.
+type VerifEpochTracker struct {
+	t       *epochTracker
+	waiters map[uint64]epochWaiter
+	gens    map[*guard]uint64
+}
+
+// VerifNewEpochTracker returns a fresh tracker as Store creates it for a shard.
+func VerifNewEpochTracker() *VerifEpochTracker {
+	return &VerifEpochTracker{t: newEpochTracker(), waiters: map[uint64]epochWaiter{}, gens: map[*guard]uint64{}}
+}
+
+// StartWrite calls epochTracker.StartWrite; the returned guards are named by the generation
+// of their delete, in ascending order (the tracker ranges over a map).
+func (v *VerifEpochTracker) StartWrite() (guards []uint64, gen uint64) {
+	gs, gen := v.t.StartWrite()
+	for _, g := range gs {
+		guards = append(guards, v.gens[g])
+	}
+	sort.Slice(guards, func(i, j int) bool { return guards[i] < guards[j] })
+	return guards, gen
+}
+
+// EndWrite calls epochTracker.EndWrite.
+func (v *VerifEpochTracker) EndWrite(gen uint64) { v.t.EndWrite(gen) }
+
+// WaitDelete calls epochTracker.WaitDelete with a new guard and returns the waiter's generation.
+func (v *VerifEpochTracker) WaitDelete(min, max int64, names []string, expr influxql.Expr) uint64 {
+	g := newGuard(min, max, names, expr)
+	w := v.t.WaitDelete(g)
+	v.waiters[w.gen] = w
+	v.gens[g] = w.gen
+	return w.gen
+}
+
+// Done calls epochWaiter.Done of the waiter WaitDelete returned for gen.
+func (v *VerifEpochTracker) Done(gen uint64) {
+	if w, ok := v.waiters[gen]; ok {
+		w.Done()
+	}
+}
+
+// State returns the tracker's fields; deletes as (generation, pending) in ascending generation.
+func (v *VerifEpochTracker) State() (epoch, largest uint64, writes int64, deletes [][2]int64) {
+	v.t.mu.Lock()
+	defer v.t.mu.Unlock()
+	for gen, st := range v.t.deletes {
+		deletes = append(deletes, [2]int64{int64(gen), st.pending})
+	}
+	sort.Slice(deletes, func(i, j int) bool { return deletes[i][0] < deletes[j][0] })
+	return v.t.epoch, v.t.largest, v.t.writes, deletes
+}
+
+// WaitReturns reports whether epochWaiter.Wait of the waiter for gen would return now
+// (epochDeleteState.Wait loops while pending > 0).
+func (v *VerifEpochTracker) WaitReturns(gen uint64) bool {
+	w, ok := v.waiters[gen]
+	if !ok || w.state == nil || w.tracker == nil {
+		return true
+	}
+	return !(w.state.pending > 0)
+}
+
+// GuardDone reports guard.done of the delete's guard (guard.Wait loops while !done).
+func (v *VerifEpochTracker) GuardDone(gen uint64) bool {
+	w, ok := v.waiters[gen]
+	if !ok {
+		return false
+	}
+	w.guard.cond.L.Lock()
+	defer w.guard.cond.L.Unlock()
+	return w.guard.done
+}
+
+// GuardMatches asks the delete's guard about a batch of points.
+func (v *VerifEpochTracker) GuardMatches(gen uint64, pts []models.Point) bool {
+	w, ok := v.waiters[gen]
+	if !ok {
+		return false
+	}
+	return w.guard.Matches(pts)
+}
